@@ -124,6 +124,11 @@ func (vs *varStore) nonLocalVarIndex(v ast.Expression) (index int, ok bool) {
 
 	switch v := v.(type) {
 	case *ast.Identifier:
+		// A variable declared in the function hides a package-level or
+		// captured variable with the same name.
+		if vs.emitter.fb.declaredInFunc(v.Name) {
+			return 0, false
+		}
 		name = v.Name
 		fullName = v.Name
 	case *ast.Selector:
